@@ -24,6 +24,10 @@ DEFAULTS = {
                          ('rendered_view', 'decorated_view', 'VIEW'), ('mapped_view', 'rendered_view', 'VIEW'),
                          ('csrf_view', 'secured_view', 'owrapped_view')],
     'pl_after_is_more_than': True,
+    'pd_view_straight': True, 'pd_route_straight': True, 'pd_subscriber_straight': True, 'pd_inner_straight': True,
+    'pl_default_route_predicates': ['xhr', 'request_method', 'path_info', 'request_param', 'header', 'accept',
+                                    'is_authenticated', 'effective_principals', 'custom', 'traverse'],
+    'pl_default_subscriber_predicates': [],
     'pl_default_view_predicates': ['xhr', 'request_method', 'path_info', 'request_param', 'header', 'accept',
                                    'containment', 'request_type', 'match_param', 'physical_path',
                                    'is_authenticated', 'effective_principals', 'custom'],
@@ -71,18 +75,48 @@ def _sorter_call_cfg(fn, env, base):
     return (d['default_before'], d['default_after'], d['first'], d['last'])
 
 
-def _kw_map(call, want):
-    """call keywords {kw: Name id}; check against want mapping kw->name or its swap -> True/False"""
+def _arg_map(call, params):
+    """bind a call's positional + keyword arguments to the callee's parameter names (self excluded)"""
     got = {}
+    for i, a in enumerate(call.args):
+        if isinstance(a, ast.Starred) or i >= len(params):
+            raise Bad('cannot bind positional argument %d' % i)
+        got[params[i]] = a
     for kw in call.keywords:
-        if isinstance(kw.value, ast.Name):
-            got[kw.arg] = kw.value.id
-    a, b = want
-    if got.get('after') == a and got.get('before') == b:
+        if kw.arg is None or kw.arg not in params or kw.arg in got:
+            raise Bad('cannot bind keyword %r' % kw.arg)
+        got[kw.arg] = kw.value
+    return got
+
+
+def _params(fn):
+    a = fn.args
+    if a.vararg or a.kwarg or a.kwonlyargs or a.posonlyargs:
+        raise Bad('%s: unexpected parameter kinds' % fn.name)
+    return [x.arg for x in a.args][1:]
+
+
+def _pair_map(call, params, targets, want):
+    """which of the two names `want` reach the two parameters `targets` -> True (straight) / False (swapped)"""
+    got = _arg_map(call, params)
+    ids = []
+    for t in targets:
+        v = got.get(t)
+        if not isinstance(v, ast.Name):
+            raise Bad('argument for %s is not a plain name' % t)
+        ids.append(v.id)
+    if ids == list(want):
         return True
-    if got.get('after') == b and got.get('before') == a:
+    if ids == list(want)[::-1]:
         return False
-    raise Bad('after/before keyword mapping not recognised: %r' % got)
+    raise Bad('argument mapping not recognised: %r -> %r' % (targets, ids))
+
+
+SORTER_ADD = ['name', 'val', 'after', 'before']
+
+
+def _kw_map(call, want):
+    return _pair_map(call, SORTER_ADD, ('after', 'before'), want)
 
 
 def _find_calls(fn, attr):
@@ -278,28 +312,71 @@ def extract(src):
         if not loop_seen:
             raise Bad('add_default_view_derivers: no loop')
         vals['dv_default_decls'] = decls
-        # default view predicates
-        dp = m.find('ViewsConfiguratorMixin.add_default_view_predicates')
-        fors = [n for n in dp.body if isinstance(n, ast.For)]
-        if len(fors) != 1:
-            raise Bad('add_default_view_predicates loop')
-        call = fors[0].body[0].value
-        if not (len(fors[0].body) == 1 and call.func.attr == 'add_view_predicate' and len(call.args) == 2 and not call.keywords):
-            raise Bad('add_default_view_predicates body')
-        vals['pl_default_view_predicates'] = [e.elts[0].value for e in fors[0].iter.elts]
     guard('config/views.py derivers', derivers)
 
     def preds():
+        um = F.Module(src, 'pyramid/util.py')
+        if _params(um.find('TopologicalSorter.add')) != SORTER_ADD:
+            raise Bad('TopologicalSorter.add signature')
         m = F.Module(src, 'pyramid/config/predicates.py')
         init = m.find('PredicateList.__init__')
         cfg = _sorter_call_cfg(init, {}, vals['cfg_plain'])
         if cfg != vals['cfg_plain']:
             raise Bad('PredicateList sorter is not the default TopologicalSorter()')
-        adds = _find_calls(m.find('PredicateList.add'), 'add')
+        pl_add = m.find('PredicateList.add')
+        pl_params = _params(pl_add)
+        if pl_params != ['name', 'factory', 'weighs_more_than', 'weighs_less_than']:
+            raise Bad('PredicateList.add signature %r' % pl_params)
+        adds = _find_calls(pl_add, 'add')
         if len(adds) != 1:
             raise Bad('PredicateList.add: expected one sorter.add call')
         vals['pl_after_is_more_than'] = _kw_map(adds[0], ('weighs_more_than', 'weighs_less_than'))
-    guard('config/predicates.py PredicateList', preds)
+        ap = m.find('PredicateConfiguratorMixin._add_predicate')
+        ap_params = _params(ap)
+        if ap_params != ['type', 'name', 'factory', 'weighs_more_than', 'weighs_less_than']:
+            raise Bad('_add_predicate signature %r' % ap_params)
+        inner = [c for c in _find_calls(ap, 'add') if isinstance(c.func.value, ast.Name) and c.func.value.id == 'predlist']
+        if len(inner) != 1:
+            raise Bad('_add_predicate: expected one predlist.add call')
+        vals['pd_inner_straight'] = _pair_map(inner[0], pl_params, ('weighs_more_than', 'weighs_less_than'),
+                                              ('weighs_more_than', 'weighs_less_than'))
+        for kind, rel, qual, dq in (
+                ('view', 'pyramid/config/views.py', 'ViewsConfiguratorMixin.add_view_predicate',
+                 'ViewsConfiguratorMixin.add_default_view_predicates'),
+                ('route', 'pyramid/config/routes.py', 'RoutesConfiguratorMixin.add_route_predicate',
+                 'RoutesConfiguratorMixin.add_default_route_predicates'),
+                ('subscriber', 'pyramid/config/adapters.py', 'AdaptersConfiguratorMixin.add_subscriber_predicate', None)):
+            dm = F.Module(src, rel)
+            fn = dm.find(qual)
+            if _params(fn) != ['name', 'factory', 'weighs_more_than', 'weighs_less_than']:
+                raise Bad('%s signature' % qual)
+            calls = _find_calls(fn, '_add_predicate')
+            if len(calls) != 1:
+                raise Bad('%s: expected one _add_predicate call' % qual)
+            got = _arg_map(calls[0], ap_params)
+            t = got.get('type')
+            if not (isinstance(t, ast.Constant) and t.value == kind):
+                raise Bad('%s: predicate type is not %r' % (qual, kind))
+            for k in ('name', 'factory'):
+                if not (isinstance(got.get(k), ast.Name) and got[k].id == k):
+                    raise Bad('%s: %s not passed through' % (qual, k))
+            vals['pd_%s_straight' % kind] = _pair_map(calls[0], ap_params, ('weighs_more_than', 'weighs_less_than'),
+                                                      ('weighs_more_than', 'weighs_less_than'))
+            if dq is not None:
+                dp = dm.find(dq)
+                fors = [n for n in dp.body if isinstance(n, ast.For)]
+                if len(fors) != 1:
+                    raise Bad('%s loop' % dq)
+                call = fors[0].body[0].value
+                if not (len(fors[0].body) == 1 and call.func.attr == 'add_%s_predicate' % kind
+                        and len(call.args) == 2 and not call.keywords):
+                    raise Bad('%s body' % dq)
+                vals['pl_default_%s_predicates' % kind] = [e.elts[0].value for e in fors[0].iter.elts]
+        # no default subscriber predicates are registered anywhere
+        cm = F.Module(src, 'pyramid/config/__init__.py')
+        if 'add_default_subscriber_predicates' in cm.text or 'add_subscriber_predicate(' in cm.text:
+            raise Bad('default subscriber predicates appeared')
+    guard('predicate directives', preds)
     return vals, problems
 
 
@@ -319,9 +396,11 @@ def emit(vals):
                    % (k, _opt(db), _opt(da), F.coq_text(f), F.coq_text(l)))
     for k in ('tw_main', 'tw_ingress', 'dv_view', 'dv_ingress', 'dv_default_under', 'dv_default_over', 'dv_forced_over'):
         out.append('Definition %s : text := %s.\n' % (k, F.coq_text(vals[k])))
-    for k in ('tw_after_is_under', 'tw_use_reversed', 'dv_after_is_under', 'dv_reversed', 'pl_after_is_more_than'):
+    for k in ('tw_after_is_under', 'tw_use_reversed', 'dv_after_is_under', 'dv_reversed', 'pl_after_is_more_than',
+              'pd_view_straight', 'pd_route_straight', 'pd_subscriber_straight', 'pd_inner_straight'):
         out.append('Definition %s : bool := %s.\n' % (k, F.coq_bool(vals[k])))
-    for k in ('tw_default_adds', 'dv_outer', 'pl_default_view_predicates'):
+    for k in ('tw_default_adds', 'dv_outer', 'pl_default_view_predicates', 'pl_default_route_predicates',
+              'pl_default_subscriber_predicates'):
         out.append('Definition %s : list text := %s.\n' % (k, F.coq_texts(vals[k])))
     out.append('Definition dv_default_decls : list (text * option text * option text) := [%s].\n'
                % '; '.join('(%s, %s, %s)' % (F.coq_text(n), _opt(u), _opt(o)) for n, u, o in vals['dv_default_decls']))
